@@ -591,8 +591,8 @@ func Pre(op Op, a, b modeling.Mesh) (ok, checked bool) {
 			total += m.PrimitiveCount
 		}
 		return len(a.Materials()) < 2 || total == a.PrimitiveCount(), false
-	case "slice":
-		return tri && hasPos, false
+	case "slice": // the function checks the topology (RequireTopology) but reads the attribute through unchecked accessors
+		return tri && hasPos, hasPos
 	case "vertexcolor", "colorgrade":
 		return a.HasFloat3Attribute(modeling.ColorAttribute), true
 	case "fresh-line", "prim2":
